@@ -22,13 +22,18 @@ def check_units(units):
     return [res[i] for i in range(len(units))]
 
 
-def build_packs(packs):
-    """packs: list of unit lists. Build+run each; bisect failing packs. Returns (ran: {unit name: (frames, result)}, failed: {unit name: result})."""
+def build_packs(packs, module=False):
+    """packs: list of unit lists. Build+run each; bisect failing packs. Returns (ran: {unit name: (frames, result)}, failed: {unit name: result}).
+    module=True: the units' functions live in an imported module (sem.pack_module)."""
     ran, failed = {}, {}
     work = list(packs)
     while work:
         jobs = []
         for k, p in enumerate(work):
+            if module:
+                files, _ = sem.pack_module(p)
+                jobs.append((k, files))
+                continue
             inc, _ = sem.pack(p)
             jobs.append((k, {"prog.incn": inc}))
         res = pipe.run_many(jobs)
@@ -144,6 +149,41 @@ def run(tier, pid="C01"):
             key = "grouping-parentheses-dropped"
         inc, py = sem.pack([u])
         out.fail(key, {"unit": name, "tags": list(u.tags), "why": why, "incan": inc, "reference_python": py})
+    # ---- placement lifts: the matched single-function units again as a method of a class and in an imported module
+    import zlib
+
+    matched = [byname[n] for n in ran if n not in mism and sem.liftable(byname[n])]
+    if tier != "thorough":
+        matched = [u for u in matched if zlib.crc32(u.name.encode()) % 3 == 0]
+    lift_stats = {}
+    for kind in ("method", "module"):
+        if kind == "method":
+            lifted = [sem.lift_method(u) for u in matched]
+            chk2 = check_units(lifted)
+            acc2 = [u for u, c in zip(lifted, chk2) if c["check"]["status"] == "ok"]
+            rej2 = [u.name for u, c in zip(lifted, chk2) if c["check"]["status"] != "ok"]
+            ran2, failed2 = build_packs([acc2[i : i + PACK] for i in range(0, len(acc2), PACK)])
+        else:
+            acc2, rej2 = list(matched), []
+            ran2, failed2 = build_packs([acc2[i : i + PACK] for i in range(0, len(acc2), PACK)], module=True)
+        ok2 = 0
+        for u in acc2:
+            if u.name in failed2:
+                r = failed2[u.name]
+                out.fail(f"lift:{kind}|unit:{u.name}|does-not-build", {"unit": u.name, "tags": list(u.tags), "why": f"{r.stage}: {r.detail}", "incan": sem.pack([u])[0] if kind == "method" else json.dumps(sem.pack_module([u])[0]), "reference_python": sem.pack([byname[u.name]])[1]})
+                continue
+            frames, result = ran2[u.name]
+            why = compare(byname[u.name], frames, result, exp[u.name])
+            if why and why.startswith("MACHINERY"):
+                raise common.MachineryError(f"{u.name} ({kind} lift): {why}")
+            if why:
+                out.fail(f"lift:{kind}|unit:{u.name}", {"unit": u.name, "tags": list(u.tags), "why": why, "incan": sem.pack([u])[0] if kind == "method" else json.dumps(sem.pack_module([u])[0]), "reference_python": sem.pack([byname[u.name]])[1]})
+            else:
+                ok2 += 1
+                sigs_ok.add(u.tags + (f"lift:{kind}",))
+        for n in rej2:
+            out.fail(f"lift:{kind}|unit:{n}|rejected-by-checker", {"unit": n, "tags": list(byname[n].tags), "why": "the same function is accepted as a free function", "incan": sem.pack([sem.lift_method(byname[n])])[0], "reference_python": ""})
+        lift_stats[kind] = {"lifted": len(matched), "accepted": len(acc2), "matched_reference": ok2}
     # units the checker accepted but that do not build are C02's subject; they are outside what C01 can observe
     cov = {
         "evaluations": len(accepted),
@@ -154,7 +194,7 @@ def run(tier, pid="C01"):
         "form, enums with data, models/classes/inheritance/traits/newtypes/closures/consts/defaults/named args, the five documented runtime errors, and every sequence of <= 2 "
         "statements from a 44-statement grammar over two mutable ints (assignments, compound assignments, if/elif/else, for with break/continue, while, match, and/or; quick: all "
         "singles and 44 x 6 pairs, thorough: all 44 x 44 pairs) on 4 argument pairs; each unit is compiled by the "
-        "real CLI and compared with CPython on the transliterated text; non-trivial = distinct tag signatures among units that built, ran and matched",
+        "real CLI and compared with CPython on the transliterated text; every matched single-function unit (quick: a third of them) is compiled again as a method of a class and as a pub function of an imported module (multi-file project) and must print the same; non-trivial = distinct tag signatures among units that built, ran and matched",
         "samples": [{"unit": u.name, "decls": u.decls, "driver": u.driver} for u in common.pick_samples(accepted)],
         "exhaustive": True,
         "units": len(units),
@@ -163,6 +203,7 @@ def run(tier, pid="C01"):
         "built_and_ran": len(ran),
         "matched_reference": n_ok,
         "accepted_but_did_not_build": {n: f"{r.stage}: {r.detail}" for n, r in failed.items()},
+        "placement_lifts": lift_stats,
     }
     pipe.prune_targets()
     return out.finish(
